@@ -1217,6 +1217,48 @@ fn judge_c11(b: &Builders, m: &Model, u: &Universe, raw: &mut Vec<(String, Strin
             ));
         }
     }
+    // path membership asked directly (validation.rs `registry_contains_type_path`): every universe
+    // path, every query, and prefixes / suffixes / extensions of them
+    {
+        use scale_typegen::typegen::validation::registry_contains_type_path;
+        let mut cands: BTreeSet<Vec<String>> = BTreeSet::new();
+        for p in u.paths.iter().chain(u.queries.iter()) {
+            let s = idents_of(p);
+            if s.len() > 1 {
+                cands.insert(s[1..].to_vec());
+                cands.insert(s[..s.len() - 1].to_vec());
+            }
+            let mut ext = s.clone();
+            ext.push(s.last().cloned().unwrap_or_else(|| "X".into()));
+            cands.insert(ext);
+            cands.insert(s);
+        }
+        cands.insert(vec![]);
+        for (which, reg) in [("probe", &*u.reg), ("foreign", &*u.foreign), ("empty", &empty)] {
+            for c in &cands {
+                let want = registry_has_path(reg, c);
+                let got = match entropy::catch(|| registry_contains_type_path(reg, c)) {
+                    Ok(g) => g,
+                    Err(p) => {
+                        return Some((
+                            "membership-panics".into(),
+                            format!("registry_contains_type_path({which}, {c:?}) panicked: {p}"),
+                        ))
+                    }
+                };
+                stats.c11_membership_queries += 1;
+                if want {
+                    stats.c11_membership_hits += 1;
+                }
+                if got != want {
+                    return Some((
+                        "path-membership".into(),
+                        format!("registry_contains_type_path({which} registry, {c:?}) = {got}, but {}", if want { "an entry has exactly this path" } else { "no entry has this path" }),
+                    ));
+                }
+            }
+        }
+    }
     // similar paths
     for q in &u.queries {
         let qp = parse_path(q);
@@ -1280,6 +1322,8 @@ pub struct Stats {
     pub c11_unknown_paths_max: usize,
     pub c11_both_ways_unknown: u64,
     pub c11_similar_hits: u64,
+    pub c11_membership_queries: u64,
+    pub c11_membership_hits: u64,
     pub model_states: BTreeSet<u64>,
     pub canonical_comparisons: u64,
 }
@@ -1970,6 +2014,8 @@ pub fn check(ctx: &Ctx, prop: Prop) -> i32 {
         agg.c11_unknown_paths_max = agg.c11_unknown_paths_max.max(s.c11_unknown_paths_max);
         agg.c11_both_ways_unknown += s.c11_both_ways_unknown;
         agg.c11_similar_hits += s.c11_similar_hits;
+        agg.c11_membership_queries += s.c11_membership_queries;
+        agg.c11_membership_hits += s.c11_membership_hits;
         agg.canonical_comparisons += s.canonical_comparisons;
         for (k, v) in &s.outcomes {
             *agg.outcomes.entry(k.clone()).or_default() += v;
@@ -2087,6 +2133,8 @@ pub fn check(ctx: &Ctx, prop: Prop) -> i32 {
             "max_unknown_paths_in_one_error": agg.c11_unknown_paths_max,
             "unknown_path_registered_specifically_and_recursively": agg.c11_both_ways_unknown,
             "similar_path_queries_with_hits": agg.c11_similar_hits,
+            "direct_membership_queries (registry_contains_type_path on universe paths, queries, their prefixes/suffixes/extensions, x 3 registries)": agg.c11_membership_queries,
+            "of_those_expected_true": agg.c11_membership_hits,
             "readback_points_judged": agg.reads,
         });
     }
